@@ -49,92 +49,137 @@ def run(ctx):
 
 
 # ------------------------------------------------------------------- align
-def _align_parse(ctx, index):
+def _none_pad_length(e):
+    """the length expression k of a list of k Nones: [None] * k, k * [None], list(islice(cycle((None,)), k)), list(repeat(None, k))"""
+    if isinstance(e, ast.BinOp) and isinstance(e.op, ast.Mult):
+        for lst, k in ((e.left, e.right), (e.right, e.left)):
+            if isinstance(lst, (ast.List, ast.Tuple)) and len(lst.elts) == 1 and isinstance(lst.elts[0], ast.Constant) and lst.elts[0].value is None:
+                return k
+    if isinstance(e, ast.Call) and norm(e.func) in ("list", "tuple") and len(e.args) == 1:
+        inner = e.args[0]
+        if isinstance(inner, ast.Call) and norm(inner.func).rpartition(".")[2] == "islice" and len(inner.args) == 2 and "None" in norm(inner.args[0]):
+            return inner.args[1]
+        if isinstance(inner, ast.Call) and norm(inner.func).rpartition(".")[2] == "repeat" and len(inner.args) == 2 and norm(inner.args[0]) == "None":
+            return inner.args[1]
+    return None
+
+
+def pads_defaults_on_the_left(index):
+    """does function.parse rebuild a defaults attribute as <list of Nones> + <that attribute>? (also used by C13)"""
+    from ..defuse import expand_aliases
+
     f = index.func("cdd.function.parse.function")
-    # the statement that rebuilds the defaults list: setattr(args_obj, defaults, PAD + getattr(args_obj, defaults))
+    for n in iter_own(f.node):
+        if isinstance(n, ast.Call) and norm(n.func) == "setattr" and len(n.args) == 3 and norm(n.args[0]) == "function_def.args":
+            val = expand_aliases(f, n.args[2], keep={norm(n.args[1])})
+            if isinstance(val, ast.BinOp) and isinstance(val.op, ast.Add) and _none_pad_length(val.left) is not None:
+                if " ".join(norm(val.right).split()) == "getattr(function_def.args, {})".format(norm(n.args[1])):
+                    return True
+    return False
+
+
+def _align_parse(ctx, index):
+    """
+    function.parse pads the defaults list on the LEFT with len(args) - len(defaults) Nones and then pairs the
+    two lists position by position. Recognised after expanding single-definition locals, so naming the
+    sub-expressions, writing the pad as `[None] * k` or pairing with zip() instead of a common index is all
+    the same to the rule.
+    """
+    from ..defuse import expand_aliases
+
+    f = index.func("cdd.function.parse.function")
+    # the loop variables ranging over (("args", "defaults"), ("kwonlyargs", "kw_defaults")): whatever they are called
+    pairs = set()
+    loop_vars = []
+    for n in iter_own(f.node):
+        if isinstance(n, ast.Tuple) and len(n.elts) == 2 and all(isinstance(e, ast.Constant) for e in n.elts):
+            pairs.add((n.elts[0].value, n.elts[1].value))
+        if isinstance(n, (ast.For, ast.comprehension)) and isinstance(n.target, ast.Tuple) and len(n.target.elts) == 2 and all(isinstance(e, ast.Name) for e in n.target.elts):
+            it = expand_aliases(f, n.iter)
+            if isinstance(it, (ast.Tuple, ast.List)) and any(
+                isinstance(e, ast.Tuple) and [getattr(x, "value", None) for x in e.elts] == ["args", "defaults"] for e in it.elts
+            ):
+                loop_vars.append((n.target.elts[0].id, n.target.elts[1].id))
+    ctx.need(loop_vars, "function.parse no longer loops over the (args, defaults) / (kwonlyargs, kw_defaults) attribute pairs")
+    keep = {v for pr in loop_vars for v in pr}
+
+    def ex(e):
+        return " ".join(norm(expand_aliases(f, e, keep=keep)).split())
+
+    def is_list_of(e, var):
+        return ex(e) == "getattr(function_def.args, {})".format(var)
+
+    # the statement that rebuilds the defaults list: setattr(args_obj, D, PAD + getattr(args_obj, D))
     sets = [
         n
         for n in iter_own(f.node)
-        if isinstance(n, ast.Call) and norm(n.func) == "setattr" and len(n.args) == 3 and isinstance(n.args[2], ast.BinOp)
+        if isinstance(n, ast.Call) and norm(n.func) == "setattr" and len(n.args) == 3 and norm(n.args[0]) == "function_def.args"
     ]
     ctx.need(len(sets) == 1, "the defaults-padding statement vanished from function.parse ({} candidates)".format(len(sets)))
-    s = sets[0]
-    binop = s.args[2]
-    left, right = binop.left, binop.right
-    right_is_orig = isinstance(right, ast.Call) and norm(right.func) == "getattr" and norm(right.args[1]) == norm(s.args[1]) and norm(right.args[0]) == norm(s.args[0])
-    left_is_orig = isinstance(left, ast.Call) and norm(left.func) == "getattr" and norm(left.args[1]) == norm(s.args[1])
-    ok = isinstance(binop.op, ast.Add) and right_is_orig and not left_is_orig
+    s_ = sets[0]
+    dvar = norm(s_.args[1])
+    avars = [a for a, d in loop_vars if d == dvar]
+    ctx.need(avars, "the padded attribute `{}` is not the defaults variable of the pair loop".format(dvar))
+    avar = avars[0]
+    val = expand_aliases(f, s_.args[2], keep=keep)
+    ctx.need(isinstance(val, ast.BinOp) and isinstance(val.op, ast.Add), "the padded defaults are no longer PAD + defaults: {}".format(short(val, 70)))
+    k_left, k_right = _none_pad_length(val.left), _none_pad_length(val.right)
+    ok = k_left is not None and is_list_of(val.right, dvar)
     ctx.ob(
         "C02.align.parse",
         f,
-        s,
+        "defaults are padded with Nones on the left",
         ok,
         ""
         if ok
         else "the None-padding must be on the LEFT of the existing defaults (Python right-aligns defaults with "
-        "args): `def f(a, b=1)` would otherwise pair b's default with a",
+        "args): `def f(a, b=1)` would otherwise pair b's default with a"
+        + (" (the padding is on the right)" if k_right is not None and is_list_of(val.left, dvar) else ""),
+        line=s_.lineno,
     )
     # pad length = |len(args) - len(defaults)| of the same arguments object
-    pad_len = None
-    for n in ast.walk(binop):
-        if isinstance(n, ast.Call) and norm(n.func) == "islice" and len(n.args) == 2:
-            pad_len = n.args[1]
-        if isinstance(n, ast.BinOp) and isinstance(n.op, ast.Mult):
-            pad_len = n.right if isinstance(n.left, (ast.List, ast.Tuple)) else n.left
-    ctx.need(pad_len is not None, "cannot find the pad length in {}".format(short(left)))
-    d = local_defs(f).get(pad_len.id, []) if isinstance(pad_len, ast.Name) else [pad_len]
-    txt = " ".join(norm(x) for x in d)
-    # the loop variables ranging over (("args", "defaults"), ("kwonlyargs", "kw_defaults")): whatever they are called
-    va, vb = "args", "defaults"
-    for n in iter_own(f.node):
-        if (
-            isinstance(n, ast.For)
-            and isinstance(n.target, ast.Tuple)
-            and len(n.target.elts) == 2
-            and all(isinstance(e, ast.Name) for e in n.target.elts)
-            and isinstance(n.iter, (ast.Tuple, ast.List))
-            and any(
-                isinstance(e, ast.Tuple) and [getattr(x, "value", None) for x in e.elts] == ["args", "defaults"] for e in n.iter.elts
-            )
-        ):
-            va, vb = n.target.elts[0].id, n.target.elts[1].id
-    want_a = "len(getattr(function_def.args, {}))".format(va)
-    want_b = "len(getattr(function_def.args, {}))".format(vb)
-    ok = want_a in txt and want_b in txt and "-" in txt
+    k = k_left if k_left is not None else k_right
+    ctx.need(k is not None, "cannot find the pad length in {}".format(short(val, 70)))
+    kt = ex(k)
+    la, ld = "len(getattr(function_def.args, {}))".format(avar), "len(getattr(function_def.args, {}))".format(dvar)
+    ok = kt in ("abs({} - {})".format(la, ld), "abs({} - {})".format(ld, la), "{} - {}".format(la, ld))
     ctx.ob(
         "C02.align.parse",
         f,
-        "pad length = " + short(d[0] if d else pad_len, 90),
+        "pad length = |len(args) - len(defaults)|",
         ok,
-        "" if ok else "the pad length must be len(args) - len(defaults) of the same arguments object",
-        line=s.lineno,
+        "" if ok else "the pad length must be len(args) - len(defaults) of the same arguments object, it is `{}`".format(kt),
+        line=s_.lineno,
     )
-    # pairing uses one index for both lists
+    # pairing: one position for both lists — a common index, or zip(args list, defaults list)
     calls = [n for n in iter_own(f.node) if isinstance(n, ast.Call) and norm(n.func).endswith("func_arg2param")]
     ctx.need(calls, "func_arg2param call vanished from function.parse")
     for c in calls:
         a0 = c.args[0] if c.args else None
-        dk = [k.value for k in c.keywords if k.arg == "default"]
-        ok = (
-            isinstance(a0, ast.Subscript)
-            and dk
-            and isinstance(dk[0], ast.Subscript)
-            and norm(a0.slice) == norm(dk[0].slice)
-            and va in norm(a0.value)
-            and vb in norm(dk[0].value)
-        )
+        dk = [k_.value for k_ in c.keywords if k_.arg == "default"]
+        ok = False
+        if a0 is not None and dk:
+            d0 = dk[0]
+            ea, ed = expand_aliases(f, a0, keep=keep), expand_aliases(f, d0, keep=keep)
+            if isinstance(ea, ast.Subscript) and isinstance(ed, ast.Subscript):
+                pa = [a for a, d in loop_vars if " ".join(norm(ed.value).split()) == "getattr(function_def.args, {})".format(d)]
+                ok = norm(ea.slice) == norm(ed.slice) and any(" ".join(norm(ea.value).split()) == "getattr(function_def.args, {})".format(a) for a in pa)
+            elif isinstance(a0, ast.Name) and isinstance(d0, ast.Name):
+                # both are targets of one `for x, y in zip(<args list>, <defaults list>)`
+                for n in iter_own(f.node):
+                    if isinstance(n, (ast.For, ast.comprehension)) and isinstance(n.target, ast.Tuple) and [norm(e) for e in n.target.elts] == [a0.id, d0.id]:
+                        z = n.iter
+                        if isinstance(z, ast.Call) and norm(z.func) == "zip" and len(z.args) == 2:
+                            ok = any(is_list_of(z.args[0], a) and is_list_of(z.args[1], d) for a, d in loop_vars)
         ctx.ob(
             "C02.align.parse",
             f,
-            c,
+            "argument and default are taken at the same position",
             bool(ok),
-            "" if ok else "argument and default are not taken at the same index of the two parallel lists",
+            "" if ok else "argument and default are not taken at the same position of the two parallel lists: {}".format(short(c, 90)),
+            line=c.lineno,
         )
     # both (args, defaults) and (kwonlyargs, kw_defaults) go through the same code
-    pairs = set()
-    for n in iter_own(f.node):
-        if isinstance(n, ast.Tuple) and len(n.elts) == 2 and all(isinstance(e, ast.Constant) for e in n.elts):
-            pairs.add((n.elts[0].value, n.elts[1].value))
     ok = ("args", "defaults") in pairs and ("kwonlyargs", "kw_defaults") in pairs
     ctx.ob("C02.align.parse", f, "both (args, defaults) and (kwonlyargs, kw_defaults) are paired", ok, "" if ok else "pairs found: {}".format(sorted(pairs)), line=f.node.lineno)
 
@@ -177,6 +222,22 @@ def emit_lists(ctx, index):
     return f, xs.pop(), ys.pop(), fields, joint, ctor[0]
 
 
+def elementwise(e):
+    """
+    (iterable node, binder, element expression, has_filter) when `e` builds a sequence with one element per
+    element of an iterable: list(map(lambda p: E, IT)) / [E for T in IT] / list(E for T in IT) / tuple(...).
+    binder is the lambda's parameter name (str) or the comprehension target node.
+    """
+    if isinstance(e, ast.Call) and norm(e.func) in ("list", "tuple") and len(e.args) == 1:
+        return elementwise(e.args[0])
+    if isinstance(e, ast.Call) and norm(e.func) == "map" and len(e.args) == 2 and isinstance(e.args[0], ast.Lambda) and len(e.args[0].args.args) == 1:
+        return e.args[1], e.args[0].args.args[0].arg, e.args[0].body, False
+    if isinstance(e, (ast.ListComp, ast.GeneratorExp)) and len(e.generators) == 1:
+        g = e.generators[0]
+        return g.iter, g.target, e.elt, bool(g.ifs)
+    return None
+
+
 def _align_emit(ctx, index):
     f, xname, yname, fields, joint, ctor = emit_lists(ctx, index)
     defs = local_defs(f)
@@ -184,13 +245,13 @@ def _align_emit(ctx, index):
     def source_iterable(name):
         out = set()
         for d in defs.get(name, []):
-            for n in ast.walk(d):
-                if isinstance(n, ast.Call) and norm(n.func) == "map" and len(n.args) >= 2:
-                    out.add(norm(n.args[-1]))
+            ew = elementwise(d)
+            if ew is not None:
+                out.add(norm(ew[0]) + (" [filtered]" if ew[3] else ""))
         return out
 
     a, d = source_iterable(xname), source_iterable(yname)
-    ctx.need(a and d, "the argument list / default list of function.emit are no longer built by map(...)")
+    ctx.need(a and d, "the argument list / default list of function.emit are no longer built element-wise from an iterable")
     ok = a == d and len(a) == 1
     ctx.ob(
         "C02.align.emit",
